@@ -59,7 +59,11 @@ def ext_work(item):
             case = f"ext:{mid}|" + ",".join(f"{k}={v}" for k, v in sorted(o.items()))
             col.bump("ext_pairs")
             try:
+                o = dict(o)
+                twice = o.pop("_twice", False)
                 m.simplify(dict(o))
+                if twice:
+                    m.simplify(dict(o))
             except Exception as e:
                 col.violation(case + ":raises", f"simplify() raises {type(e).__name__}: {str(e)[:100]}", {"model_text": text, "options": o})
                 continue
@@ -156,6 +160,34 @@ def main():
                 body = ceqs + deq if order == "consts-first" else (deq + ceqs if order == "consts-last" else ceqs[:1] + deq + ceqs[1:])
                 text = "model S\n  input Real u;\n  Real x(start = 1);\n  Real " + ", ".join(ks) + ";\nequation\n" + "\n".join(body) + "\nend S;\n"
                 extra.append((f"allconst[{nconst},{order},{tail}]", text, osets))
+    # option-specific corners: initial equations / time with the affine reduction, constants given by constants,
+    # equations between array elements with unexpanded arrays, time as the other side of an alias, a second pass
+    aff = [{"reduce_affine_expression": True}, {"reduce_affine_expression": True, "detect_aliases": True},
+           {"reduce_affine_expression": True, "replace_constant_values": True, "replace_parameter_values": True},
+           {"reduce_affine_expression": True, "expand_mx": True}]
+    for ini in ("", "initial equation\n  x = 2;\n", "initial equation\n  x = 2 + y;\n  der(x) = 0;\n"):
+        for tm in ("", " + time", " + 2 * time + p"):
+            text = ("model S\n  parameter Real p = 2;\n  constant Real c = 3;\n  Real x(start = 1);\n  Real y;\n" + ini +
+                    f"equation\n  der(x) = -x + y{tm};\n  y = c * x + p{tm};\nend S;\n")
+            extra.append((f"affine-corners[init={len(ini) > 0 and ini.count(';')},time={tm.strip() or '-'}]", text, aff))
+    cv = [{"replace_constant_values": True}, {"replace_constant_values": True, "eliminate_constant_assignments": True},
+          {"replace_constant_values": True, "replace_constant_expressions": True}, {"replace_constant_values": True, "detect_aliases": True},
+          {"replace_constant_values": True, "replace_parameter_values": True, "replace_parameter_expressions": True}]
+    for chain in ("constant Real a = 2;\n  constant Real b = 3 * a;", "constant Real b = 3 * a;\n  constant Real a = 2;",
+                  "constant Real a = 2;\n  constant Real b = 3 * a;\n  constant Real d = b + a;", "constant Real a = 2;\n  parameter Real b = 3 * a;"):
+        use = "b + a" if "d =" not in chain else "d * b"
+        extra.append((f"dependent-constants[{chain.count(';')},{'param' if 'parameter' in chain else 'const'},{chain.index('a = 2') == 14}]",
+                      f"model S\n  {chain}\n  Real x;\n  Real z(start = 1);\nequation\n  x = {use};\n  der(z) = -x * z;\nend S;\n", cv))
+    va = [{"detect_aliases": True}, {"detect_aliases": True, "expand_vectors": True}, {"detect_aliases": True, "expand_mx": True},
+          {"detect_aliases": True, "expand_vectors": True, "_twice": True}, {"expand_vectors": True, "_twice": True},
+          {"expand_vectors": True, "detect_aliases": True, "eliminate_constant_assignments": True, "replace_constant_values": True, "_twice": True}]
+    for eqs in ("y[1] = x[1];\n  y[2] = 2 * x[2];\n  x[1] = 1;\n  x[2] = 2;", "y = x;\n  x[1] = 1;\n  x[2] = 2;",
+                "y[1] = x[2];\n  y[2] = x[1];\n  x = {1, 2};", "y[1] = -x[1];\n  y[2] = x[2] + 1;\n  x = {1, 2};",
+                "y[2] = x[2];\n  y[1] = 5;\n  der(x[1]) = -x[1];\n  der(x[2]) = y[1];"):
+        extra.append((f"element-equations[{eqs.split(';')[0]}|{len(eqs)}]", "model S\n  Real x[2];\n  Real y[2];\nequation\n  " + eqs + "\nend S;\n", va))
+    for eqs in ("y = time;\n  z = 2 * y;", "y = -time;\n  z = y;", "z = y;\n  y = time;", "time = y;\n  z = y + 1;"):
+        extra.append((f"time-alias[{eqs.split(';')[0]}]", "model S\n  Real y;\n  Real z;\nequation\n  " + eqs + "\nend S;\n",
+                      [{"detect_aliases": True}, {"detect_aliases": True, "expand_mx": True}, {"detect_aliases": True, "eliminate_constant_assignments": True}]))
     for col in run_parallel(ext_work, simpfam.models_ext(a.tier) + extra, a.jobs):
         rep.merge(col)
     cov = rep.coverage
@@ -169,7 +201,9 @@ def main():
                      "eliminable_variable_expression, factor_and_simplify_equations); thorough: all 47 family models x 2^6, and 8 models x 2^9 adding "
                      "(replace_parameter_values, expand_mx, allow_derivative_aliases)")
     cov["bounds"] += ("; concrete supplementary stage: every model of the extended C14 families (alias links and cycles, 15 equation orientations, badly scaled affine systems) and of a family where every algebraic variable is constant-assigned with further equations before/after, that is "
-                      "balanced and has a nonsingular Jacobian at a generic point, under the option sets C14 uses for it")
+                      "balanced and has a nonsingular Jacobian at a generic point, under the option sets C14 uses for it; 22 option-specific corner models: "
+                      "reduce_affine_expression with 0/1/2 initial equations and time in the equations, constants and parameters given by other constants with replace_constant_values, "
+                      "equations between array elements with unexpanded / expanded arrays, time as the other side of an alias equation, and a second simplify pass with expand_vectors")
     rep.assumptions += ["the model family is square and uniquely solvable by construction (vk/simpfam.py)",
                         "an exception from simplify() counts as a failure of C15 (no option set in the family raises on the unchanged tree)",
                         "values are realised at the CasADi boundary"]
